@@ -58,6 +58,8 @@ type OnDiskAggTrigger struct {
 	// filter by market hours if this is "nasdaq"
 	filter   string
 	aggCache *sync.Map
+	// fireLocks holds one mutex per base bucket (key: time bucket key)
+	fireLocks sync.Map
 }
 
 var _ trigger.Trigger = &OnDiskAggTrigger{}
@@ -117,6 +119,15 @@ func (s *OnDiskAggTrigger) Fire(keyPath string, records []trigger.Record) {
 		return
 	}
 	tbk := io.NewTimeBucketKey(strings.Join(elements[:len(elements)-1], "/"))
+
+	// The dispatcher starts one goroutine per flushed transaction group: two groups that touch the same
+	// base bucket would aggregate concurrently and the slower call would overwrite newer aggregates and
+	// the cache. Serialize Fire per base bucket.
+	lock, _ := s.fireLocks.LoadOrStore(tbk.String(), &sync.Mutex{})
+	if mu, ok := lock.(*sync.Mutex); ok {
+		mu.Lock()
+		defer mu.Unlock()
+	}
 
 	// the earliest and the latest written bar (the records are in request order, not in time order)
 	minIndex, maxIndex := records[0].Index(), records[0].Index()
